@@ -106,6 +106,13 @@ def run(ctx):
         pol, f, what, inq = gen_case(rng)
         try:
             pobj = proto.build_policy(pol)
+            if rng.random() < 0.12:
+                # the same definition, but the element lists are filled in place after the policy was created empty
+                # (no attribute assignment happens): what a field matches depends on the elements it holds
+                full = pobj
+                pobj = proto.build_policy(dict(pol, subjects=[], resources=[], actions=[]))
+                for fld in ('subjects', 'resources', 'actions'):
+                    getattr(pobj, fld).extend(getattr(full, fld))
             # a user rule may answer with any truthy / falsy object, not only with a bool
             for e in getattr(pobj, FIELDS[f][0]):
                 for r in ([e] if isinstance(e, proto.ConstRule) else
